@@ -22,7 +22,7 @@ pub fn run(ctx: &mut Ctx) {
     if part.is_empty() || part == "widths" { widths(ctx); }
     if part.is_empty() || part == "extremes" { extremes(ctx); }
     if part.is_empty() || part == "selzero" { selzero(ctx); }
-    if part.is_empty() || part == "large" { large(ctx); }
+    if part.is_empty() || part == "large" { large(ctx); wide(ctx); }
 }
 
 pub fn ser<T: Serialize>(x: &T) -> Vec<u8> {
@@ -286,6 +286,62 @@ fn large(ctx: &mut Ctx) {
         let seen = check_sparse(ctx, "set", mk::sparse_set(n, &m.ones), &m, &a, &opts);
         ctx.case(hash64(&[9, n as u64, m.ones.len() as u64, c as u64]), true);
         ctx.sample(|| format!("large: n={} m={} (clusters of ~{} consecutive values, shape {}) observed w={:?} idx_args={} rank_args={}", n, m.ones.len(), cluster, c % 3, seen, a.idx.len(), a.ranks.len()));
+    }
+}
+
+// Vectors laid out in terms of the upper-bits bitvector `high` (a 1 per value, a 0 per bucket): select superblocks of
+// its ones (values) or of its zeros (buckets) get prescribed spans around the long/short threshold T = bit_len(|high|)^4
+// and around the largest power of two below T - short superblocks whose block samples hold the widest offsets a short
+// superblock can have - with dense superblocks in between so that the parameter rule picks the intended low width.
+fn wide(ctx: &mut Ctx) {
+    if cfg!(miri) { return; }
+    let opts = QOpts { iter_limit: 0, ..QOpts::default() };
+    let cases = ctx.size(2, 8);
+    let w = 20usize;
+    for c in 0..cases {
+        if !ctx.mine(100 + c as u64) { continue; }
+        if !ctx.begin_case() { continue; }
+        let mut rng = ctx.rng(0xC2_C000 + c as u64);
+        let zero_side = c % 2 == 1;
+        let shape = if cases <= 2 { 4 } else { c / 2 };
+        let t = 21usize * 21 * 21 * 21; // |high| stays between 2^20 and 2^21
+        let wide_spans = [t - 1, 131_072, 131_073 + rng.below(50_000), 131_071, t];
+        // Dense superblocks between, before and after the wide ones; as many as the parameter rule needs.
+        let mut spans: Vec<usize> = Vec::new();
+        let fillers = if zero_side { 215 + rng.below(10) } else { 105 + rng.below(15) };
+        let mut placed_wide = 0;
+        for f in 0..fillers {
+            if placed_wide < wide_spans.len() && (f == 0 && c % 4 < 2 || f == 7 + 11 * placed_wide) { spans.push(wide_spans[placed_wide]); placed_wide += 1; }
+            spans.push(4096 + rng.below(if zero_side { 40 } else { 200 }));
+        }
+        while placed_wide < wide_spans.len() { spans.push(wide_spans[placed_wide]); placed_wide += 1; }
+        let high = gen::superblock_spans(&mut rng, &spans, shape, zero_side);
+        // Values from the layout: bucket = zeros before the 1, low parts increasing inside a bucket.
+        let buckets = high.iter().filter(|b| !**b).count();
+        let n = buckets << w;
+        let mut pos: Vec<usize> = Vec::with_capacity(high.len() - buckets);
+        let (mut bucket, mut in_bucket) = (0usize, 0usize);
+        let mut wide_edges: Vec<usize> = Vec::new();
+        for &b in high.iter() {
+            if b { pos.push((bucket << w) + in_bucket * 5 + (bucket % 5)); in_bucket += 1; } else { bucket += 1; in_bucket = 0; if bucket % 64 == 0 { wide_edges.push(bucket << w); } }
+        }
+        let m = SetModel::new(n, pos);
+        if predict_width(n, m.ones.len()) != w {
+            ctx.inconclusive(format!("wide: layout with {} values and {} buckets does not make the parameter rule choose width {}", m.ones.len(), buckets, w));
+            continue;
+        }
+        let mut a = sparse_args(&m, w, &mut rng);
+        // Ones side: ranks at every block of 64 values (+-1); zero side: positions at every 64th bucket edge (+-1).
+        let mut r = 0; while r < m.ones.len() + 64 { for d in 0..2usize { a.ranks.push(r.saturating_sub(d)); a.ranks.push(r + d); } r += if zero_side { 4096 } else { 64 }; }
+        let step = if zero_side { 1 } else { 16 };
+        for e in wide_edges.iter().step_by(step) { a.idx.push(*e); a.idx.push(e.saturating_sub(1)); a.idx.push(e + 1); }
+        for _ in 0..3000 { let i = rng.below(m.ones.len()); a.idx.push(m.ones[i]); a.idx.push(m.ones[i] + 1); a.ranks.push(i); }
+        let a = a.dedup();
+        let seen = check_sparse(ctx, "set", mk::sparse_set(n, &m.ones), &m, &a, &opts);
+        if seen != Some(w) { ctx.inconclusive(format!("wide: the library chose low width {:?}, the layout was made for {}", seen, w)); }
+        ctx.count(if zero_side { "wide.zero_side_cases" } else { "wide.one_side_cases" }, 1);
+        ctx.case(hash64(&[10, n as u64, m.ones.len() as u64, c as u64]), true);
+        ctx.sample(|| format!("wide: |high|={} values={} buckets={} w={:?}: select superblocks of the {} of `high` with spans {:?} (T={}), shape {}; idx_args={} rank_args={}", high.len(), m.ones.len(), buckets, seen, if zero_side { "zeros" } else { "ones" }, wide_spans, t, shape, a.idx.len(), a.ranks.len()));
     }
 }
 
